@@ -792,7 +792,12 @@ class KernelCpu:
                             f"Argument `{arg.name}`: arrays in non-native "
                             "byte order cannot be passed to a kernel"
                         )
-                    slice_first_elem = value[tuple(value.ndim * [slice(0, 1)])]
+                    # (indexing a 0-d array with () would give a scalar: a copy)
+                    slice_first_elem = (
+                        value[tuple(value.ndim * [slice(0, 1)])]
+                        if value.ndim
+                        else value
+                    )
                     return self.ffi_interface.cast(
                         dtype2ctype(value.dtype) + "*",
                         self.ffi_interface.from_buffer(slice_first_elem.data),
